@@ -171,6 +171,11 @@ func passOperCandidates(pass string) [][2]string {
 }
 
 type c13Oracle struct {
+	// restoreEvery > 0: after every restoreEvery-th entry the instance is replaced by what a node
+	// that restores a snapshot holds (Marshal + Unmarshal); the property holds in those states too
+	restoreEvery int
+	restores     int
+
 	rec     *vh.Recorder
 	preP    *privSnap
 	classes map[string]bool
@@ -186,6 +191,10 @@ func (o *c13Oracle) begin(i *IRCServer, c *hcase, rt *rapid.T) {
 	o.classes = map[string]bool{}
 	o.invites = map[string]map[string]bool{}
 	o.bans = map[string]map[string][]string{}
+	o.restoreEvery = param(c, rt, "restore_every", 0, 12)
+	if o.restoreEvery == 1 {
+		o.restoreEvery = 0
+	}
 }
 
 func (o *c13Oracle) pre(i *IRCServer, idx int, e ircgen.Entry) { o.preP = takePriv(i) }
@@ -714,6 +723,18 @@ func tmode(modes string) string {
 		return "/+t"
 	}
 	return "/-t"
+}
+
+func (o *c13Oracle) replace(i *IRCServer, idx int) (*IRCServer, *vh.Failure) {
+	if o.restoreEvery == 0 || (idx+1)%o.restoreEvery != 0 {
+		return i, nil
+	}
+	b, err := roundTrip(i)
+	if err != nil {
+		return i, nil // serialization errors are C03's subject
+	}
+	o.restores++
+	return b, nil
 }
 
 func (o *c13Oracle) end(i *IRCServer) *vh.Failure { return nil }
